@@ -860,7 +860,16 @@ def rule_full_guard(prog, res, la, rule="R-FULL-GUARD"):
                 if pc is not None and is_tail_eq_head(pc) and f.blocks[p].term == "and":
                     full_blocks.add(p)
     if not full_blocks:
-        raise AnalysisBroken("next_write: the ring-full test (tail == head && cycle == reader cycle + 1) was not found")
+        # a comparison of the two laps exists but it is not "writer lap ==
+        # reader lap + 1": that is a wrong full test (reported below: no grant
+        # is guarded); no lap comparison at all means the function was
+        # restructured beyond what this rule recognises
+        def mentions(c, key):
+            return any(keyof(y) == key for y in ir.walk(c) if isinstance(y, dict))
+        lapcmp = any(b.cond_node() is not None and mentions(b.cond_node(), ("channel", "cycle")) and
+                     mentions(b.cond_node(), ("channel", "holds.cycles")) for b in f.blocks.values())
+        if not lapcmp:
+            raise AnalysisBroken("next_write: the ring-full test (tail == head && cycle == reader cycle + 1) was not found")
 
     def accepted(cn, lab, blk):
         if blk.id in full_blocks and lab == "false":
